@@ -13,7 +13,8 @@ RULE = ("consistency: case = (line ≤ 80 characters over the markup alphabet + 
         "round trip: case = (valid abbreviation: serialised G1 script with ASCII names, bracket-balanced payloads, or G5 stylesheet abbreviation; left context ∈ start of "
         "line / blank / tab / word+blank / complete tags `<div>` `<p class=\"a\">` `</b>` `<br/>` `<a href=x>` `<img src=a.png>` `<div data-a=1>` / non-ASCII word+blank / `= ` / "
         "`{ ` / `return `; right context ∈ end / blank+word / `<` / `</p>` / auto-closed tail). Oracle: extract at the abbreviation's end (or before its auto-closed tail "
-        "of one quote + closing brackets) returns exactly the embedded abbreviation at its offset; the abbreviation is first confirmed to expand. "
+        "of one quote + closing brackets) returns exactly the embedded abbreviation at its offset — also behind a configured prefix (`<`, `>>>`, `&&`, `→`) glued to arbitrary text; "
+        "the abbreviation is first confirmed to expand. "
         "Non-trivial: round-trip case whose abbreviation has `>` after an attribute set/repeater/text or whose left context is a tag; distinct by case.")
 ASSUME = ["payloads inside [..] keep all three bracket kinds balanced and payloads inside {..} keep braces balanced and unescaped (the backward scanner documents that it respects all characters inside attribute sets or text nodes by bracket counting, not by quote/escape parsing)",
           "element names are ASCII; blanks, quotes, `=` and `,` occur only inside brackets; stylesheet abbreviations contain no function calls"]
@@ -94,8 +95,9 @@ def check_roundtrip(case, rec):
     except Exception:
         rec.skip('abbreviation-does-not-expand')
         return
-    line = left + abbr + right
-    pos = len(left) + len(abbr) - tail
+    prefix = case.get('prefix', '')
+    line = left + prefix + abbr + right
+    pos = len(left) + len(prefix) + len(abbr) - tail
     rec.evals()
     nt = bool(re.search(r'[\]\}\)\d]>', abbr)) or left.endswith('>')
     if nt:
@@ -107,11 +109,13 @@ def check_roundtrip(case, rec):
     rec.cls('type-' + typ)
     try:
         with guard():
-            r = extract(line, pos, {'type': typ})
+            r = extract(line, pos, dict({'type': typ}, **({'prefix': prefix} if prefix else {})))
     except Exception as e:
         rec.fail(core.exc_bucket(e), 'line %r pos %d: %s: %s' % (line, pos, type(e).__name__, e))
         return
-    want = (abbr, len(left), len(left), len(left) + len(abbr))
+    want = (abbr, len(left) + len(prefix), len(left), len(left) + len(prefix) + len(abbr))
+    if prefix:
+        rec.cls('with-prefix')
     got = (r.abbreviation, r.location, r.start, r.end) if r else None
     if got != want:
         kind = 'cut-short' if (r and abbr.endswith(r.abbreviation) and r.end == want[3]) else 'other'
@@ -173,11 +177,18 @@ def tail_len(abbr):
 
 
 def roundtrip_strategy():
-    def mk(sc, picks, left, right, use_tail):
+    def mk(sc, picks, left, right, use_tail, prefix):
         abbr = M.ser_script(rich_mentions(sc, picks))
         t = tail_len(abbr) if use_tail else 0
-        return {'abbr': abbr, 'left': left, 'right': right if not t else '', 'type': 'markup', 'tail': t}
-    markup = st.builds(mk, G.scripts(P_RT), st.lists(st.integers(0, 47), max_size=6), st.sampled_from(LEFT), st.sampled_from(RIGHT), st.booleans())
+        d = {'abbr': abbr, 'left': left, 'right': right if not t else '', 'type': 'markup', 'tail': t}
+        if prefix:
+            # with a prefix the left context may be anything, also text glued to the prefix
+            d['prefix'] = prefix
+        elif left in ('foo', 'a.b>c', 'x{y}'):
+            d['left'] = left + ' '
+        return d
+    markup = st.builds(mk, G.scripts(P_RT), st.lists(st.integers(0, 47), max_size=6), st.sampled_from(LEFT + ['foo', 'a.b>c', 'x{y}']), st.sampled_from(RIGHT), st.booleans(),
+                       st.sampled_from(['', '', '', '<', '>>>', '&&', '→']))
     num = st.builds(lambda n, u, neg: {'k': 'num', 'neg': neg and n != '0', 'w': n, 'u': u}, st.sampled_from(['0', '1', '10', '.5', '1.5', '100']), st.sampled_from(['', 'p', 'px', 'e', '%']), st.booleans())
     col = st.builds(lambda h, a: {'k': 'col', 'hex': h, 'alpha': a}, st.sampled_from(['f', 'fc0', 'e7bc0b', '0', 'a1']), st.sampled_from([None, '.5']))
     prop = st.builds(lambda k, vs, imp: {'key': k, 'vals': vs, 'imp': imp}, st.sampled_from(['m', 'p', 'c', 'bg', 'bd', 'fz', 'lh', 'pos', 'd']), st.lists(st.one_of(num, num, col), max_size=3), st.booleans())
